@@ -665,3 +665,14 @@ def r2_10(run):
 
 RULES = [("R2.1", r2_1), ("R2.2", r2_2), ("R2.3", r2_3), ("R2.4", r2_4), ("R2.5", r2_5), ("R2.7", r2_7), ("R2.9", r2_9), ("R2.10", r2_10)]
 THOROUGH = [("R2.8", r2_8)]
+
+
+def r2_11(run):
+    """the reported Reynolds number, friction factor and mean velocity of a sectioned pipe are the means over ITS sections: sums
+    formed per pipe (sorted by pipe label) are divided by counts in the same order and placed through the same permutation -- shared
+    with C06 R6.2 (order kinds: an array in table order is never combined element-wise with an array in sorted-group order)."""
+    from .c06 import r6_2
+    r6_2(run)
+
+
+RULES.append(("R2.11", r2_11))
